@@ -299,3 +299,13 @@ def kd_in(b, operand, norm_calls, want_idx):
             i = sorted({const_value(op_const(t_["args"][1]) or {}) for _, t_ in b.slice_op(nt["args"][0]).find_calls(r"ops::Index::index$")})
             got.add(tuple(i))
     return got == {(want_idx,)}
+
+
+import c09  # noqa: E402
+
+
+@M.rule("C10-R5", "element normalisation shared with paths: emission rules, strict hex decoding, error kind by element type (shared with C09-R1/R2/R3)")
+def r5(ctx):
+    for r in list(c09.r1(ctx)) + list(c09.r2(ctx)) + [x for x in c09.r3(ctx) if "plus-in-path" not in x.key]:
+        r.rule = "C10-R5"
+        yield r
